@@ -553,6 +553,8 @@ func (g *pathGen) join(t toks) []byte {
 // ---------------------------------------------------------------------------
 
 var nearMisses = []string{
+	"$[0\\u0074o 1]", "$ ? (1\\x73tarts with \"a\")", "$.a ? (12\\u006cike_regex \"^1\")", "$[1\\u{74}o 2]", "$[1.5\\u0074o 2]", "$[0x1F\\u0074o 40]", "1\\x41", "$[1e1\\u0074o 20]", "$ ? (1\\u0073tarts with \"a\")",
+	"\"a\".b", "\"a\".*", "\"a\".**", "\"a\".* + 1", "(\"a\".b)", "$ ? (\"a\".b == 1)", "$.rows ? (@.cells[@.pick] == 1)", "strict $.a ? ($.b[0 to @.n] == 2)", "$ ? (@[@.i] > 0)", "$[@.i]",
 	// validity rules
 	"$ ? (@.a > 1)[@.i]", "$?(@ > 0).a[0 to @]", "($ ? (@.a == 1))[@]", "strict $.x ? (exists(@.y)).z.*[1, @.n]", "$ ? (@ > 1).a == @", "$ ? (@ > 1) + @", "$[0 ? (@ > 1)][@]",
 	"$ ? (@ > 1) ? (@ < 3)[@]", "$.a ? (@ > 1).b ? (@ < 2).c[@.d]", "$[0][last]", "$[last][0].a[1 to 2].b == last", "$[0 ? (last > 1)].a[last]", "$[0].a ? (@ == last)", "$[0, 1].x.y[@]",
